@@ -196,7 +196,7 @@ func (self Node) Binary() ([]byte, error) {
 
 func (self Node) binary() ([]byte, error) {
 	switch self.t {
-	case proto.BYTE:
+	case proto.BYTE, proto.STRING: // a string has the same wire form (Options.CastStringAsBinary)
 		v, _, _ := protowire.BinaryDecoder{}.DecodeBytes(rt.BytesFrom(self.v, int(self.l), int(self.l)))
 		return v, nil
 	default:
